@@ -115,8 +115,69 @@ Definition probe_val (v : val) : val :=
   | _ => vsym "bad"
   end.
 
+(* ---- redial family: (sredial CLIOPS ((sKIND sARMED sDOWN) ...)) ----
+   The callee is fixed: call handler 0 and push handler 1 on the root router, no plugins.
+   The cutter is the last plugin of the caller's chain and never refuses, so it cuts exactly
+   when it is armed and no pre-write hook refuses; a cut costs one retry of the write (n = 1),
+   or ends in a failed redial when the listener stays down. *)
+Definition redial_srv_ops : list op := [ORoute KCall 0 0 0%Z []; ORoute KPush 0 1 0%Z []].
+
+Definition is_write_stage (s : stage) : bool :=
+  match s with PreWriteCall | PostWriteCall | PreWritePush | PostWritePush => true | _ => false end.
+
+Definition events_val (t : list event) : val :=
+  VL (map (fun e : event => VL [VN (fst e); VN (stage_id (snd e))]) t).
+
+Definition redial_msg (cli srv : pstate) (v : val) : option val :=
+  match v with
+  | VL [k; a; d] =>
+      match kind_of k with
+      | None => None
+      | Some k =>
+          let armed := sym_eqb a "true" in
+          let down := sym_eqb d "true" in
+          let gc := global_flat cli in
+          let pre := match k with KCall => PreWriteCall | KPush => PreWritePush end in
+          let post := match k with KCall => PostWriteCall | KPush => PostWritePush end in
+          let cut := armed && negb (vetoes pre gc) in
+          let sf := send_flow false pre post gc (if cut then 1 else 0)
+                              (if cut && down then WRedialFail else WOk) in
+          let m := match k with KCall => MCall 0 | KPush => MPush 1 end in
+          let r := exchange cli srv m in
+          let racy := cut && negb down && match k with KCall => true | KPush => false end in
+          let rtrace := if sd_written sf && negb racy
+                        then filter (fun e : event => negb (is_write_stage (snd e))) (trace_of (r_cli r))
+                        else [] in
+          let delivered := if sd_written sf then N.of_nat (length (r_invoked r)) else 0%N in
+          let status := if racy then 0%Z else if sd_written sf then r_status r else sd_status sf in
+          Some (VL [events_val (trace_of (sd_plan sf)); events_val rtrace; VN delivered; VZ status])
+      end
+  | _ => None
+  end.
+
+Fixpoint redial_msgs (cli srv : pstate) (l : list val) : option (list val) :=
+  match l with
+  | [] => Some []
+  | v :: r => match redial_msg cli srv v, redial_msgs cli srv r with
+              | Some x, Some xs => Some (x :: xs)
+              | _, _ => None
+              end
+  end.
+
+Definition run_redial (cops ms : list val) : option val :=
+  match ops_of cops with
+  | Some cops =>
+      match Plugins.run cops, Plugins.run redial_srv_ops with
+      | Some cli, Some srv => option_map VL (redial_msgs cli srv ms)
+      | _, _ => None
+      end
+  | None => None
+  end.
+
 Definition run (inp : val) : option val :=
   match inp with
+  | VL [VS t; VL cops; VL ms] =>
+      if bytes_eqb t (str "redial") then run_redial cops ms else None
   | VL [VL sops; VL cops; VL ms; VL probes] =>
       match ops_of sops, ops_of cops, msgs_of ms with
       | Some sops, Some cops, Some ms =>
